@@ -22,7 +22,7 @@ type filesCase struct {
 	info    caseInfo
 	hist    history
 	idx     int
-	cont    int // how an in-flight remove is continued: 0 re-receive, 1 re-remove
+	cont    int // how the in-flight op is continued: remove: 0 re-receive, 1 re-remove; receive: 0 retry, 2 retry then remove
 }
 
 // filesCases executes the history on a live crash-VFS and returns one crash case per prefix of the
@@ -88,14 +88,14 @@ func filesCases(r *ev.Run, w *world, h history) []filesCase {
 		}
 		unsynced := st.unsyncedBytes()
 		for _, v := range vfsVariants {
-			for cont := 0; cont < 2; cont++ {
-				if cont == 1 && last.Recv {
+			for cont := 0; cont < 3; cont++ {
+				if cont == 1 && last.Recv || cont == 2 && (!last.Recv || partial > 0) {
 					continue
 				}
 				idx := len(out)
 				out = append(out, filesCase{state: st.crash(v), variant: v, hist: h, idx: idx, cont: cont, info: caseInfo{
 					CaseID: fmt.Sprintf("files-%s-s%d;", h.ID, idx), Store: "files", Shape: h.Shape, History: hs,
-					Kind: opName + "-" + kind + "-" + v, Off: off + []string{"", "/reremove"}[cont],
+					Kind: opName + "-" + kind + "-" + v, Off: off + []string{"", "/reremove", "/retry-remove"}[cont],
 					Detail: fmt.Sprintf("%s; calls:%s; un-synced bytes at crash: %d (%s)", detail, trace, unsynced, v),
 				}})
 			}
